@@ -616,4 +616,16 @@ theorem mcScanChild_char (w : Worker) (inner : List (Label × Row)) (c : Content
     rw [shippedCopyFirst_eq] at this
     exact this
 
+theorem placeFrom_shift (k : Nat) : ∀ (ps : List (Label × Pickled)) (n : Nat),
+    (placeFrom n ps).map (fun ls => (ls.1, { ls.2 with cell := ls.2.cell + k })) = placeFrom (n + k) ps := by
+  intro ps
+  induction ps with
+  | nil => intro n; rfl
+  | cons p rest ih =>
+    intro n
+    simp only [placeFrom, List.map_cons]
+    rw [ih (n + 1)]
+    have : n + 1 + k = n + k + 1 := by omega
+    rw [this]
+
 end Mxl.C09
